@@ -47,7 +47,7 @@ UNIT = Unit(
               flags=['--conversion-check'], reach=['numlit_predicate'], timeout=300, min_obligations=4)],
     mutants=[Mutant('fraction_truncated', XP, r'if \(theIndex <= 0\.0 \|\|\s*theIndex > double\(theLength\) \|\|\s*double\(NodeRefListBase::size_type\(theIndex\)\) != theIndex\)',
                     'if (theIndex < 1.0 ||\n                    NodeRefListBase::size_type(theIndex) > theLength)', expect='selects nothing unless')],
-    mechanisms=['predicate evaluation (number-literal shortcut)'],
+    mechanisms=['predicate evaluation (number-literal shortcut)', 'predicate filtering incl. numeric-literal shortcut'],
     assumptions=['only the number-literal branch of XPath::predicates is extracted (a block); the general per-node predicate loop is not under contract',
                  'a number literal is never NaN (the XPath lexer produces digits with an optional fraction)'],
 )
